@@ -9,9 +9,9 @@ Definition reader_line_delim : N := 10%N.
 Definition reader_name_sep : N := 58%N.
 Definition reader_parseint_base : Z := 10%Z.
 Definition reader_parseint_bits : Z := 32%Z.
-Definition reader_length_tests : list str := [[60;61;48]%N; [61;61;48]%N].
+Definition reader_int_tests : list str := [[61;61;48]%N; [60;48]%N; [60;61;48]%N; [61;61;48]%N].
 Definition reader_trimspace_calls : Z := 2%Z.
 
 (* headerWriter.Write *)
 Definition writer_format : str := [67;111;110;116;101;110;116;45;76;101;110;103;116;104;58;32;37;118;13;10;13;10]%N.
-Definition writer_format_args : list str := [[108;101;110;40;100;97;116;97;41]%N].
+Definition writer_format_args : list str := [[108;101;110;40;95;41]%N].
